@@ -795,9 +795,9 @@ func periodic(s *simrt.Sim, tier string) {
 	// The simulator gives every timer of simulated code a unique nanosecond
 	// offset; the cache job's ticker is the first timer the constructor creates
 	// (the second when the upload job is enabled): pass k runs at k*period.
-	eps := s.NextTimerEps()
+	eps := s.TimerEpsAfter(1)
 	if !upCfg.Disabled {
-		eps++
+		eps = s.TimerEpsAfter(2)
 	}
 	w.period = interval + eps
 	if simple {
